@@ -88,7 +88,10 @@ def signature(runner, kind, view, key, dg1, dg2):
         return "note-number" if re.sub(rb"Note \d+", b"Note N", a) == re.sub(rb"Note \d+", b"Note N", b) else "text"
     if kind == "c":
         pat = re.compile(rb"\b(GA|GB|GRRFmt)\d+")
-        return "bigint-number" if pat.sub(rb"\1N", a) == pat.sub(rb"\1N", b) else "text"
+        na, nb = pat.sub(rb"\1N", a), pat.sub(rb"\1N", b)
+        if view == "decls":       # a sorted set of lines: the names decide the order
+            na, nb = sorted(na.splitlines()), sorted(nb.splitlines())
+        return "bigint-number" if na == nb else "text"
     if kind == "ao" and view == "text":
         sa, sb = detobs.detproj.ao_sections(a), detobs.detproj.ao_sections(b)
         if [n for n, _ in sa] == [n for n, _ in sb] and all(x == y or (n == "syme" and len(x) == len(y)) for (n, x), (_, y) in zip(sa, sb)):
@@ -323,6 +326,10 @@ def selftest():
     ev5[9]["cfg"] = dict(ev5[9]["cfg"], aslr="maybe")
     res, det = verdict(ev5)
     out.append(("aslr value outside the axis", "rejected: invariant %s" % res.violated if res.violated else "ACCEPTED"))
+    ev6 = copy.deepcopy(events)
+    ev6[5]["proj"] = "no-such-projection"
+    res, det = verdict(ev6)
+    out.append(("view that is not a projection of DetCfg", "rejected: invariant %s" % res.violated if res.violated else "ACCEPTED"))
     for o in out:
         print("%-60s %s" % o)
     vlib.cleanup_scratch()
